@@ -38,6 +38,14 @@ package tensor
 //@   ensures[C09] iff(err == nil, confOK(conf) && dimsOK(dims)) && imp(err != nil, t == nil)
 //@   ensures[C06] imp(err == nil, t != nil && hasShape(t, dims) && forallJ(J, imp(inb(t, J), el(t, J) == 1)) && leafCtx(t, confTrack(conf)))
 
+// data is a float64 or a 1..4-fold nested slice of float64 (the type constraint inputDataType): nestType
+//@ func TensorOf
+//@   public
+//@   requires nestType(data)
+//@   returns fresh
+//@   ensures[C09] iff(err == nil, confOK(conf) && inputOK(data)) && imp(err != nil, t == nil)
+//@   ensures[C06] imp(err == nil, t != nil && nestEl(t, data) && leafCtx(t, confTrack(conf)))
+
 //@ func Eye
 //@   public
 //@   returns fresh
